@@ -25,7 +25,7 @@ ASSUMPTIONS = ['carried stories/items have fresh IDs, or the ID of the element t
 MANDATORY = ['StorySend', 'StoryAppend', 'StoryInsert', 'StoryReplace', 'ItemInsert', 'ItemReplace',
              'RunningOrderReplace', 'MetaDataReplace', 'EAStoryReplace', 'EAItemReplace',
              'EAStoryInsert', 'EAItemInsert', 'multi-carried', 'deep-or-attributed',
-             'storysend:body-not-last', 'storysend:nested-storyItem']
+             'storysend:body-not-last', 'storysend:body-first', 'storysend:nested-storyItem']
 
 
 def judge(ev):
@@ -58,6 +58,8 @@ def record(col, ev):
         sb = m.base.find('storyBody')
         if sb is not None and kids.index(sb) != len(kids) - 1:
             classes.append('storysend:body-not-last')
+        if sb is not None and kids.index(sb) == 0:
+            classes.append('storysend:body-first')
         if sb is not None and any(x.tag == 'storyItem' for c in sb for x in c.iter() if x is not c):
             classes.append('storysend:nested-storyItem')
     col.record(ev.case, ok and (multi or deep), classes, judge(ev), key=drive.ev_key(ev))
@@ -80,19 +82,24 @@ def shard_send_shapes(args):
     extras = [T('storySlug', 'resent'), T('storyNum', '4'),
               B.timing_block({'StoryDuration': '7'}), E('custom', T('k', 'v'), attrib={'a': '1'})]
     for sid in ('S0', 'S1', 'S2'):
-        for pos in range(len(extras) + 1):
+        for pos in range(-2, len(extras) + 1):
             nested = B.mk_item('J1', slug='inner')
             nested.tag = 'storyItem'
             it = B.mk_item('J0', slug='outer', extras=[E('wrapper', nested)])
             it.tag = 'storyItem'
             it.tail = ' tail&'
             body = [P('one'), it, P(None), E('other', text='t', attrib={'z': '<'}), P('(note)')]
-            b = B.story_send('RO1', sid, head=extras[:pos], body=body, post=extras[pos:],
-                             attrib={'x': 'y'})
+            if pos < 0:
+                # storyBody before storyID (-1) and before roID (-2)
+                b = B.story_send('RO1', sid, head=[], body=body, post=extras, attrib={'x': 'y'},
+                                 body_index=pos + 2)
+            else:
+                b = B.story_send('RO1', sid, head=extras[:pos], body=body, post=extras[pos:],
+                                 attrib={'x': 'y'})
             b.find('storyBody').tail = 'after-body'
             msg = B.tostring(B.envelope(b, 3000))
             record(col, drive.eval_step({'ro_xml': ro_xml, 'msg_xml': msg}))
-    col.scopes.append('roStorySend: storyBody at every index among 4 sibling elements x each of 3 stories')
+    col.scopes.append('roStorySend: storyBody at every index among its 6 siblings (incl. first child, before roID/storyID) x each of 3 stories')
     return col
 
 
